@@ -200,10 +200,14 @@ def check_seq(acc, desc, ftype, flops, opts, n, repeat=False):
     case = {"kind": "seq", "desc": desc, "ftype": ftype, "flops": flops, "n": n,
             "opts": [add_out, init, rem_unl, ignore], "repeat": repeat}
     c = space.build(desc)
+    init_before = dict(init) if isinstance(init, dict) else init
     if repeat:
-        # an earlier call on the SAME circuit object (and the same BlackBox objects) must not matter
+        # an earlier call on the SAME circuit object (same BlackBox objects, same initial_values dict) must not matter
         try:
-            cg.tx.sequential_unroll(c, 1, F["d"], F["q"])
+            cg.tx.sequential_unroll(c, 1, F["d"], F["q"], ignore_pins=ignore, initial_values=init)
+            if init != init_before:
+                acc.violation("seq", "initial_values-argument-modified", case, f"{init_before} -> {init}")
+                return None
         except Exception as e:  # noqa: BLE001
             acc.violation("seq", f"first-call-raises:{common.exc_name(e)}", case, repr(e))
             return None
